@@ -1429,6 +1429,33 @@ pub fn gen(ctx: &Ctx, emit: &mut dyn FnMut(String)) {
             emit(format!("c01 convert - le {line}"));
         }
     }
+    // conversion of every short line program over set_address (valid, lower, tombstone) /
+    // advance / row / end_sequence: partially tombstoned sequences used to trip an assertion
+    {
+        let alpha = ["r", "e", "a8", "s4096", "s16", "s18446744073709551615"];
+        let mut level: Vec<Vec<&str>> = vec![vec![]];
+        for _ in 0..4 {
+            let mut next = Vec::new();
+            for p in &level {
+                for a in alpha {
+                    let mut q = p.clone();
+                    q.push(a);
+                    next.push(q);
+                }
+            }
+            for p in &next {
+                for tail in ["e", "e,r,e", "e,s256,r,e"] {
+                    let ins = format!("{},{tail}", p.join(","));
+                    if let Some(prog) = crate::prop::c12::assemble_ins(&ins) {
+                        let s = crate::prop::c12::assembled_line_unit_with(-5, 14, &prog);
+                        let line = s.iter().filter(|(_, d)| !d.is_empty()).map(|(n, d)| format!("{n}={}", hex(d))).collect::<Vec<_>>().join(";");
+                        emit(format!("c01 convert - le {line}"));
+                    }
+                }
+            }
+            level = next;
+        }
+    }
     let rounds = ctx.n(6, 300);
     for _ in 0..rounds {
         for version in [2u16, 3, 4, 5] {
